@@ -81,11 +81,40 @@ fn expected_outcome(idl: &Idl, m: &Method, a: &Action) -> String {
 }
 
 pub fn bin_source(idl: &Idl, stem: &str, cases: &[(usize, CallCase)]) -> String {
+    let mut s = iface_body(idl, stem, cases);
+    s.push_str(
+        "fn service() -> varlink::VarlinkService {\n    varlink::VarlinkService::new(\"org.verif\", \"genprobe\", \"1\", \"http://localhost\", vec![proxy()])\n}\n\n\
+         fn main() {\n    genprobe::serve(genprobe::Handlers { description, probe, call: call_case, service, session: vec![call_case] });\n}\n",
+    );
+    s
+}
+
+/// One session binary: 1-3 generated interfaces (a module each, with its own recorder and compiled-in call cases)
+/// registered in ONE VarlinkService; the steps of a session arrive at run time (`(session …)` command).
+pub fn session_source(ifaces: &[(Idl, String, Vec<(usize, CallCase)>)]) -> String {
+    let mut s = String::from("// written by vharness (suite gen); do not edit\n#![allow(warnings)]\n");
+    for (k, (idl, stem, cases)) in ifaces.iter().enumerate() {
+        s.push_str(&format!("pub mod i{} {{\n{}\n}}\n\n", k, iface_body(idl, stem, cases)));
+    }
+    let n = ifaces.len();
+    s.push_str(&format!(
+        "fn service() -> varlink::VarlinkService {{\n    varlink::VarlinkService::new(\"org.verif\", \"genprobe\", \"1\", \"http://localhost\", vec![{}])\n}}\n\n",
+        (0..n).map(|k| format!("i{}::proxy()", k)).collect::<Vec<_>>().join(", ")
+    ));
+    s.push_str(&format!(
+        "fn main() {{\n    genprobe::serve(genprobe::Handlers {{ description: i0::description, probe: i0::probe, call: i0::call_case, service, session: vec![{}] }});\n}}\n",
+        (0..n).map(|k| format!("i{}::call_case", k)).collect::<Vec<_>>().join(", ")
+    ));
+    s
+}
+
+/// everything of a probe binary that belongs to ONE generated interface (module `g`, probe, recorder, client side)
+fn iface_body(idl: &Idl, stem: &str, cases: &[(usize, CallCase)]) -> String {
     let mut s = String::new();
     s.push_str("// written by vharness (suite gen); do not edit\n#![allow(warnings)]\nuse genprobe::sx::{self, Sx};\nuse std::sync::{Arc, RwLock};\n");
     s.push_str(&format!("#[allow(warnings)]\npub mod g {{ include!(concat!(env!(\"OUT_DIR\"), \"/{}.rs\")); }}\n\n", stem));
     // probe
-    s.push_str("fn probe(ty: &str, j: serde_json::Value) -> Option<Sx> {\n    match ty {\n");
+    s.push_str("pub fn probe(ty: &str, j: serde_json::Value) -> Option<Sx> {\n    match ty {\n");
     let mut seen = std::collections::BTreeSet::new();
     for e in emitted_types(idl) {
         if seen.insert(e.rust.clone()) {
@@ -136,7 +165,7 @@ pub fn bin_source(idl: &Idl, stem: &str, cases: &[(usize, CallCase)]) -> String 
     }
     s.push_str("}\n\n");
     // client side of the call cases
-    s.push_str("fn call_case(k: i64, conn: Arc<RwLock<varlink::Connection>>) -> Vec<Sx> {\n    let mut c = g::VarlinkClient::new(conn);\n    match k {\n");
+    s.push_str("pub fn call_case(k: i64, conn: Arc<RwLock<varlink::Connection>>) -> Vec<Sx> {\n    let mut c = g::VarlinkClient::new(conn);\n    match k {\n");
     for (k, c) in cases {
         let m = match idl.method(&c.method) {
             Some(m) => m,
@@ -147,6 +176,18 @@ pub fn bin_source(idl: &Idl, stem: &str, cases: &[(usize, CallCase)]) -> String 
         s.push_str(&format!("        {} => {{\n            let mut mc = g::VarlinkClientInterface::{}({});\n", k, to_snake_case(&m.name), args.join(", ")));
         match c.mode.as_str() {
             "oneway" => s.push_str("            match mc.oneway() { Ok(()) => vec![sx::atom(\"ok-oneway\")], Err(e) => vec![outcome::<()>(Err(e), None, None)] }\n"),
+            m if m.starts_with("abandon") => {
+                // take the first K replies of the stream, then drop the call (the connection stays with the dropped call)
+                let take: usize = m["abandon".len()..].parse().unwrap_or(0);
+                s.push_str("            let mut outs = Vec::new();\n            let mut idx = 0usize;\n            match mc.more() {\n                Err(e) => outs.push(outcome::<g::");
+                s.push_str(&format!("{}_Reply>(Err(e), None, None)),\n                Ok(it) => {{\n                    for r in it.take({}) {{\n                        outs.push(match idx {{\n", m_name(c, idl), take));
+                if let Some(md) = idl.method(&c.method) {
+                    for (i, a) in c.script.iter().enumerate() {
+                        s.push_str(&format!("                            {} => outcome(r, {}),\n", i, expected_outcome(idl, md, a)));
+                    }
+                }
+                s.push_str("                            _ => outcome(r, None, None),\n                        });\n                        idx += 1;\n                    }\n                }\n            }\n            drop(mc);\n            outs\n");
+            }
             "more" => {
                 s.push_str("            let mut outs = Vec::new();\n            let mut idx = 0usize;\n            match mc.more() {\n                Err(e) => outs.push(outcome::<g::");
                 s.push_str(&format!("{}_Reply>(Err(e), None, None)),\n                Ok(it) => {{\n                    for r in it {{\n                        outs.push(match idx {{\n", m.name));
@@ -164,9 +205,12 @@ pub fn bin_source(idl: &Idl, stem: &str, cases: &[(usize, CallCase)]) -> String 
     }
     s.push_str("        _ => vec![sx::atom(\"no-such-case\")],\n    }\n}\n\n");
     s.push_str(
-        "fn service() -> varlink::VarlinkService {\n    varlink::VarlinkService::new(\"org.verif\", \"genprobe\", \"1\", \"http://localhost\", vec![Box::new(g::new(Box::new(Rec)))])\n}\n\n\
-         fn description() -> &'static str {\n    varlink::Interface::get_description(&g::new(Box::new(Rec)))\n}\n\n\
-         fn main() {\n    genprobe::serve(genprobe::Handlers { description, probe, call: call_case, service });\n}\n",
+        "pub fn proxy() -> Box<dyn varlink::Interface + Send + Sync> {\n    Box::new(g::new(Box::new(Rec)))\n}\n\n\
+         pub fn description() -> &'static str {\n    varlink::Interface::get_description(&g::new(Box::new(Rec)))\n}\n\n",
     );
     s
+}
+
+fn m_name(c: &CallCase, _idl: &Idl) -> String {
+    c.method.clone()
 }
